@@ -455,6 +455,9 @@ func c12Scenarios(tier string) []*c12Scenario {
 		{"dupenable", false, []string{"forceclose"}, "enabling", nil, -1},
 		{"disabled", false, nil, "", false, -1},
 		{"disabled+close", false, []string{"close"}, "", false, -1},
+		{"disabled+dupenable", false, nil, "enabling", false, -1},
+		{"disabled+dupenable+forceclose", false, []string{"forceclose"}, "enabling", false, -1},
+		{"enabled+dupenable", false, nil, "enabling", true, -1},
 	}
 	// loop provider: enabling / execute inputs, Close / ForceClose at any time
 	for _, sc := range []struct {
